@@ -85,6 +85,12 @@ impl Wk {
         }
     }
 
+    /// after the worker died: the signal that killed it (0 = it exited by itself)
+    pub fn exit_signal(&mut self) -> i32 {
+        use std::os::unix::process::ExitStatusExt;
+        self.child.wait().ok().and_then(|s| s.signal()).unwrap_or(0)
+    }
+
     pub fn one(&mut self, op: Op) -> MResult<Obs> {
         Ok(self.call(vec![op])?.pop().unwrap())
     }
